@@ -86,7 +86,7 @@ Section AMapLemmas.
   Lemma nodup_aset k v (l : list (K * V)) : nodup_keys l -> nodup_keys (aset eqb k v l).
   Proof.
     unfold nodup_keys. rewrite keys_aset. destruct (existsb (fun x => eqb k x) (keys l)) eqn:E; [auto|].
-    intros Hn. apply NoDup_app_remove_l with (l := []) || idtac.
+    intros Hn.
     assert (Hnot : ~ In k (keys l)).
     { intros Hin. assert (existsb (fun x => eqb k x) (keys l) = true); [|congruence].
       apply existsb_exists. exists k. split; [assumption | apply eqb_refl']. }
